@@ -111,6 +111,38 @@ def directed(rng, tier, idents):
                 script.append({"op": "call", "inst": 1, "export": "icall", "args": [arg("i32", s_), arg("i32", 1)]})
             script.append({"op": "call", "inst": 1, "export": "icall64", "args": [arg("i32", 8), arg("i32", 5)]})
             items.append({"id": "tab_%s_%d" % (tabk, goff), "module": m, "script": script})
+    # (c1) call_indirect with parameters and results of every type (argument promotion, result slots), through a host table that
+    #      is LARGER than the declared minimum, with the element segment placed above that minimum
+    for j in range(4 if tier == "quick" else 24):
+        n = rng.choice([1, 2, 3, 5])
+        params = [rng.choice(VT4) for _ in range(n)]
+        if j == 0:
+            params = ["f32", "i64", "f32", "f64"]
+            n = len(params)
+        rt = rng.choice(VT4)
+        types = [{"p": params, "r": [rt]}, {"p": params + ["i32"], "r": [rt]}, {"p": params, "r": []}]
+        pick = rng.randrange(n)
+        cv = {"i32": "i32.wrap_i64", "i64": None, "f32": "f32.convert_i64_s", "f64": "f64.convert_i64_s"}
+        # callee: hands all parameters to the host, returns parameter `pick` converted to the result type
+        conv = {("i32", "i32"): [], ("i64", "i64"): [], ("f32", "f32"): [], ("f64", "f64"): [],
+                ("i32", "i64"): [["i64.extend_i32_u"]], ("i32", "f32"): [["f32.convert_i32_u"]], ("i32", "f64"): [["f64.convert_i32_u"]],
+                ("i64", "i32"): [["i32.wrap_i64"]], ("i64", "f32"): [["f32.convert_i64_u"]], ("i64", "f64"): [["f64.convert_i64_u"]],
+                ("f32", "i32"): [["i32.reinterpret_f32"]], ("f32", "i64"): [["i32.reinterpret_f32"], ["i64.extend_i32_u"]], ("f32", "f64"): [["f64.promote_f32"]],
+                ("f64", "i32"): [["i64.reinterpret_f64"], ["i32.wrap_i64"]], ("f64", "i64"): [["i64.reinterpret_f64"]], ("f64", "f32"): [["f32.demote_f64"]]}
+        imports = [{"mod": "env", "name": "sink", "kind": "func", "type": 2, "ret": []},
+                   {"mod": "env", "name": "base", "kind": "global", "t": "i32", "mut": False},
+                   {"mod": "env", "name": "tab", "kind": "table", "min": 4, "max": None}]
+        funcs = [{"type": 0, "locals": [], "body": [["local.get", k] for k in range(n)] + [["call", 0], ["local.get", pick]] + conv[(params[pick], rt)] + [["end"]]},
+                 # icall(params..., slot): an extra operand below the arguments, the result combined with it afterwards
+                 # icall(params..., slot) = table[slot](params...)
+                 {"type": 1, "locals": [], "body": [["local.get", k] for k in range(n)] + [["local.get", n], ["call_indirect", 0, 0], ["end"]]}]
+        m = {"types": types, "imports": imports, "funcs": funcs, "elems": [{"offset": ["global.get", 0], "funcs": [1, 1]}],
+             "exports": [{"name": "icall", "kind": "func", "idx": 2}]}
+        args = [arg(t, rng.choice(wasmgen.ARGPOOL[t])) for t in params]
+        script = [{"op": "hostglobal", "t": "i32", "b": b32(9)}, {"op": "hosttable", "size": 12}, inst(0, 1, [1])]
+        for slot in (9, 10):
+            script.append({"op": "call", "inst": 1, "export": "icall", "args": args + [arg("i32", slot)]})
+        items.append({"id": "icallty%d" % j, "module": m, "script": script})
     # (c2) random element segment layouts: constant and imported-global offsets in any order, overlaps, empty segments
     for j in range(8 if tier == "quick" else 60):
         tabk = rng.choice(["defined", "imported"])
@@ -126,8 +158,10 @@ def directed(rng, tier, idents):
         funcs.append({"type": 1, "locals": [], "body": [["local.get", 1], ["local.get", 0], ["call_indirect", 0, 0], ["end"]]})
         elems, slot = [], {}
         for _ in range(rng.randint(2, 5)):
-            n = rng.choice([0, 1, 1, 2, 3, 4])
+            n = rng.choice([0, 1, 1, 2, 3, 4, 9, 12])
             fs = [rng.randrange(0, nfun + 1) for _ in range(n)]
+            if n >= 9:
+                fs = [fs[0]] * n                 # a long run of one function (loop-compressed initialisers)
             kind = rng.choice(["c", "c", "g0", "g1"])
             base = rng.randrange(0, 16 - n + 1) if kind == "c" else gvals[int(kind[1])]
             if base + n > 16:
